@@ -1,7 +1,7 @@
 (* Proofs/ReduceAssortativity.v — C10 (models: Model/Assortativity.v):
    * on a 0/1 matrix assortativity_wei returns what assortativity_bin returns (every flag 0-4; the
      property text asks for the undirected flag 0);
-   * assortativity_bin ignores the weights: same value on W (non-negative entries) and on binarize(W).
+   * assortativity_bin ignores the weights: same value on W (ANY entries) and on binarize(W).
    The code has no square root: the returned value is compared as a rational expression
    (option Q, None = non-finite float on both sides). *)
 From Coq Require Import QArith List Arith Bool ZArith Lia Lqa.
@@ -40,25 +40,16 @@ Proof. intros [i j] H. unfold edges_triu in H. apply filter_In in H. destruct H 
 Lemma edges_all_inside n M : inside n (edges_all n M).
 Proof. intros [i j] H. unfold edges_all in H. apply filter_In in H. destruct H as [H _]. apply cells_In in H. exact H. Qed.
 
+Lemma edges_triu_nz_inside n M : inside n (edges_triu_nz n M).
+Proof. intros [i j] H. unfold edges_triu_nz in H. apply filter_In in H. destruct H as [H _]. apply cells_In in H. exact H. Qed.
+Lemma edges_all_nz_inside n M : inside n (edges_all_nz n M).
+Proof. intros [i j] H. unfold edges_all_nz in H. apply filter_In in H. destruct H as [H _]. apply cells_In in H. exact H. Qed.
+
 (* ---------- 0/1 input: strengths are degrees ---------- *)
 Lemma colsum_binary n A v : binary n A -> (v < n)%nat -> colsum n A v == colsum n (binarize A) v.
 Proof. intros Hb Hv. unfold colsum. apply sumQ_ext. intros i Hi. symmetry. apply (binarize_binary n); assumption. Qed.
 Lemma rowsum_binary n A v : binary n A -> (v < n)%nat -> rowsum n A v == rowsum n (binarize A) v.
 Proof. intros Hb Hv. unfold rowsum. apply sumQ_ext. intros i Hi. symmetry. apply (binarize_binary n); assumption. Qed.
-
-Theorem assortativity_wei_bin_eq_bin n A flag : binary n A ->
-  oeq (assortativity_wei n A flag) (assortativity_bin n A flag).
-Proof.
-  intros Hb. unfold assortativity_wei, assortativity_bin. cbv zeta.
-  do 5 (destruct flag as [|flag];
-        [apply (assort_core_ext n); try apply edges_triu_inside; try apply edges_all_inside;
-         intros v Hv; unfold strengths_und, degrees_und, degrees_dir; cbn [fst snd];
-         first [apply colsum_binary|apply rowsum_binary]; assumption|]).
-  exact I.
-Qed.
-
-(* ---------- assortativity_bin ignores the weights ---------- *)
-Definition nonnegm (n : nat) (W : mat Q) : Prop := forall i j, (i < n)%nat -> (j < n)%nat -> 0 <= W i j.
 
 Lemma Qltb_true a b : Qltb a b = true <-> a < b.
 Proof.
@@ -67,50 +58,62 @@ Proof.
   - intros H. destruct (Qle_bool b a) eqn:E; [|reflexivity]. apply Qle_bool_iff in E. lra.
 Qed.
 
-Lemma pos_binarize n W i j : nonnegm n W -> (i < n)%nat -> (j < n)%nat ->
-  Qltb 0 (binarize W i j) = Qltb 0 (W i j).
+(* on a 0/1 matrix `> 0` (assortativity_wei) and `!= 0` (assortativity_bin) select the same cells *)
+Lemma pos_nz_binary n A i j : binary n A -> (i < n)%nat -> (j < n)%nat ->
+  Qltb 0 (A i j) = negb (Qeq_bool (A i j) 0).
 Proof.
-  intros Hn Hi Hj. specialize (Hn i j Hi Hj). unfold binarize, qnz.
-  destruct (Qeq_bool (W i j) 0) eqn:E; cbn [negb]; [reflexivity|].
-  apply Qeq_bool_neq in E. assert (H : 0 < W i j) by (destruct (Qlt_le_dec 0 (W i j)); [assumption|exfalso; apply E; lra]).
-  apply Qltb_true in H. rewrite H. reflexivity.
+  intros Hb Hi Hj. destruct (Hb i j Hi Hj) as [E|E].
+  - assert (Qeq_bool (A i j) 0 = true) as -> by (apply Qeq_bool_iff; exact E). cbn [negb].
+    destruct (Qltb 0 (A i j)) eqn:L; [apply Qltb_true in L; lra|reflexivity].
+  - destruct (Qeq_bool (A i j) 0) eqn:Z; [apply Qeq_bool_iff in Z; lra|]. cbn [negb]. apply Qltb_true. lra.
+Qed.
+Lemma edges_triu_binary n A : binary n A -> edges_triu n A = edges_triu_nz n A.
+Proof.
+  intros Hb. unfold edges_triu, edges_triu_nz. apply filter_ext_in. intros [i j] Hc. apply cells_In in Hc. cbn [fst snd].
+  rewrite (pos_nz_binary n A i j Hb); tauto.
+Qed.
+Lemma edges_all_binary n A : binary n A -> edges_all n A = edges_all_nz n A.
+Proof.
+  intros Hb. unfold edges_all, edges_all_nz. apply filter_ext_in. intros [i j] Hc. apply cells_In in Hc. cbn [fst snd].
+  apply (pos_nz_binary n A i j Hb); tauto.
 Qed.
 
-Lemma edges_triu_binarize n W : nonnegm n W -> edges_triu n (binarize W) = edges_triu n W.
+Theorem assortativity_wei_bin_eq_bin n A flag : binary n A ->
+  oeq (assortativity_wei n A flag) (assortativity_bin n A flag).
 Proof.
-  intros Hn. unfold edges_triu. apply filter_ext_in. intros [i j] Hc. apply cells_In in Hc. cbn [fst snd].
-  rewrite (pos_binarize n W i j Hn); tauto.
-Qed.
-Lemma edges_all_binarize n W : nonnegm n W -> edges_all n (binarize W) = edges_all n W.
-Proof.
-  intros Hn. unfold edges_all. apply filter_ext_in. intros [i j] Hc. apply cells_In in Hc. cbn [fst snd].
-  apply (pos_binarize n W i j Hn); tauto.
+  intros Hb. unfold assortativity_wei, assortativity_bin. cbv zeta.
+  rewrite (edges_triu_binary n A Hb), (edges_all_binary n A Hb).
+  do 5 (destruct flag as [|flag];
+        [apply (assort_core_ext n); try apply edges_triu_nz_inside; try apply edges_all_nz_inside;
+         intros v Hv; unfold strengths_und, degrees_und, degrees_dir; cbn [fst snd];
+         first [apply colsum_binary|apply rowsum_binary]; assumption|]).
+  exact I.
 Qed.
 
-Theorem assortativity_bin_ignores_weights n W flag : nonnegm n W ->
+(* ---------- assortativity_bin ignores the weights: ALL weights (after the repair `!= 0`) ---------- *)
+Lemma nz_binarize W i j : negb (Qeq_bool (binarize W i j) 0) = negb (Qeq_bool (W i j) 0).
+Proof.
+  unfold binarize, qnz. destruct (Qeq_bool (W i j) 0) eqn:E; cbn [negb]; [rewrite E; reflexivity|reflexivity].
+Qed.
+Lemma edges_triu_nz_binarize n W : edges_triu_nz n (binarize W) = edges_triu_nz n W.
+Proof. unfold edges_triu_nz. apply filter_ext. intros c. rewrite nz_binarize. reflexivity. Qed.
+Lemma edges_all_nz_binarize n W : edges_all_nz n (binarize W) = edges_all_nz n W.
+Proof. unfold edges_all_nz. apply filter_ext. intros c. apply nz_binarize. Qed.
+
+Theorem assortativity_bin_ignores_weights n W flag :
   oeq (assortativity_bin n W flag) (assortativity_bin n (binarize W) flag).
 Proof.
-  intros Hn. unfold assortativity_bin. cbv zeta.
-  rewrite (edges_triu_binarize n W Hn), (edges_all_binarize n W Hn).
+  unfold assortativity_bin. cbv zeta.
+  rewrite (edges_triu_nz_binarize n W), (edges_all_nz_binarize n W).
   do 5 (destruct flag as [|flag];
-        [apply (assort_core_ext n); try apply edges_triu_inside; try apply edges_all_inside;
+        [apply (assort_core_ext n); try apply edges_triu_nz_inside; try apply edges_all_nz_inside;
          intros v Hv; pose proof (degrees_ignore_weights n W v) as [D0 [D1 [D2 _]]];
          first [exact D0|exact D1|exact D2]|]).
   exact I.
 Qed.
 
-(* ---------- ... but NOT all weights: with a negative weight the edge list `CIJ > 0` drops an edge that the degrees
-   (binarize: every nonzero entry) still count.  The docstring says "all connection weights are ignored". ---------- *)
-Definition assortativity_bin_ignores_all_weights : Prop :=
-  forall n W flag, oeq (assortativity_bin n W flag) (assortativity_bin n (binarize W) flag).
-
+(* the input on which the unrepaired code (`> 0`) gave -4/5 on W and -5/7 on binarize(W): now -5/7 on both *)
 Definition neg_witness : mat Q := of_rows 0 [[0; - (2); 1; 0]; [- (2); 0; 1; 0]; [1; 1; 0; 1]; [0; 0; 1; 0]]%list.
-
-Theorem assortativity_bin_ignores_weights_refuted : ~ assortativity_bin_ignores_all_weights.
-Proof.
-  intros H. specialize (H 4%nat neg_witness 0%nat). vm_compute in H. discriminate H.
-Qed.
-(* the two values on the witness: -4/5 on W, -5/7 on binarize(W) *)
 Lemma neg_witness_values :
-  oeq (assortativity_bin 4 neg_witness 0) (Some (- (4 # 5))) /\ oeq (assortativity_bin 4 (binarize neg_witness) 0) (Some (- (5 # 7))).
+  oeq (assortativity_bin 4 neg_witness 0) (Some (- (5 # 7))) /\ oeq (assortativity_bin 4 (binarize neg_witness) 0) (Some (- (5 # 7))).
 Proof. split; vm_compute; reflexivity. Qed.
